@@ -18,6 +18,7 @@ from . import hist_workloads as HW
 from . import kernel as K
 from . import runner
 from . import tokenizer
+from . import workloads as WL
 from .choice import ChoiceSource
 
 REPO_SRC = os.path.join(os.environ.get('VERIF_REPO', '/repo'), 'src')
@@ -382,13 +383,17 @@ OUT_NAMES = {'rel': 'result.out', 'rel_nested': 'sub dir/nested.out', 'rel_nosuf
 # console echo - never ends; disk-full is covered by the injected ENOSPC.)
 UNWRITABLE_FORMS = ['rel_isdir', 'rel_dangling']
 UNWRITABLE_NAMES = {'rel_isdir': 'taken.out', 'rel_dangling': 'dangling.out'}
-FAULTS = ['enospc', 'eio', 'eacces', 'vanish', 'cancel']
+# (the *_json kinds hit the JSON written next to the report - or whatever temporary sibling it is written through - and nothing else)
+FAULTS = ['enospc', 'eio', 'eacces', 'vanish', 'cancel', 'enospc_json', 'eacces_json']
 FAULT_AT = [1, 2, 3, 4, 5, 6, 7, 8, 10, 12, 15, 20, 25, 30, 40]
 # (the last one lives in the decoy directory under a name that also exists, relative to the package directory, in the
 # repository: an entry point that resolves a relative input path after changing directory reads the wrong file)
 SLOT_PATHS = ['in/req0.txt', 'in dir/req 1.txt', 'deep/a/b/req2.txt', 'decoy/Examples/example1.txt',
               # unusual-but-legal names: upper-case extension, no extension, non-ASCII
-              'in/REQ4.TXT', 'in/noext', 'in/\u00fcn\u00ef \u00e7\u00f8d\u00e9/r\u00e9q 6.txt']
+              'in/REQ4.TXT', 'in/noext', 'in/\u00fcn\u00ef \u00e7\u00f8d\u00e9/r\u00e9q 6.txt',
+              # names that are also shell patterns; next to each lives ANOTHER input file that the pattern matches (GLOB_SIBLINGS)
+              'in/case[1].txt', 'runs [2]/in.txt', 'in/what?.txt']
+GLOB_SIBLINGS = ['in/case1.txt', 'runs 2/in.txt', 'in/what1.txt']
 # how the text of a request is laid out in its file (the same parameters, another spelling of the file)
 FMTS = [None, None, None, None, None, 'crlf', 'nofinalnl', 'trailing', 'bom', 'comments', 'tabs']
 
@@ -467,7 +472,12 @@ def _layout(s, fmt):
     if fmt == 'nofinalnl':
         return s.rstrip('\n')
     if fmt == 'bom':
-        return '\ufeff' + s
+        # (the mark in front of the first PARAMETER line: leading comment lines are dropped, as an editor that saves with a byte order
+        # mark does not care what the first line is)
+        lines = s.split('\n')
+        while len(lines) > 1 and (not lines[0].strip() or lines[0].lstrip().startswith(('#', '*', '-'))):
+            lines.pop(0)
+        return '\ufeff' + '\n'.join(lines)
     lines = s.split('\n')
     out = []
     for i, ln in enumerate(lines):
@@ -487,7 +497,7 @@ def _layout(s, fmt):
     return '\n'.join(out)
 
 
-THEMES = ['mixed', 'cache', 'paths', 'mixed', 'faults', 'cache', 'hip', 'resmodels', 'mixed', 'cache', 'paths', 'dh']
+THEMES = ['mixed', 'cache', 'paths', 'mixed', 'faults', 'cache', 'hip', 'resmodels', 'mixed', 'cache', 'paths', 'dh', 'sweep', 'faults']
 
 
 def gen_history(cs, templates, tier, force=None):
@@ -539,16 +549,26 @@ def gen_history(cs, templates, tier, force=None):
         p_neighbour = 0
         fam = DH_FAMILY
         nops = 3 + cs.choose(3, 'nops_dh')
+    elif theme == 'sweep':
+        # a parameter sweep: one base file, one long-lived caching client, 5-9 requests built from params dicts that differ from
+        # call to call (some repeat), the request objects dropped as soon as they were served
+        kinds = ['run'] * 9 + ['rewrite', 'chdir']
+        entries = ['client_params'] * 7 + ['client']
+        slot_tab = [0]
+        c0 = [0, 2][cs.choose(2, 'sweepclient')]
+        client_tab = [c0] * 7 + [1]
+        p_neighbour = 2
+        nops = 5 + cs.choose(5, 'nops_sweep')
     elif theme == 'paths':
         kinds = ['run'] * 6 + ['chdir'] * 3 + ['rewrite', 'argv', 'delete', 'crashed_run', 'crashed_run']
         entries = ['cli'] * 5 + ['main_argv', 'client', 'hip']
-        slot_tab = [0, 0, 1, 2, 3, 3, 4, 5, 6]
+        slot_tab = [0, 0, 1, 2, 3, 3, 4, 5, 6, 7, 8, 9]
         client_tab = [0, 0, 2, 1]
         p_neighbour = 1
     else:
         kinds = ['run', 'run', 'run', 'run', 'rewrite', 'rewrite', 'rewrite', 'chdir', 'argv', 'clock', 'delete', 'mc', 'crashed_run']
         entries = ENTRIES
-        slot_tab = [0, 0, 0, 1, 2, 4, 5, 6]
+        slot_tab = [0, 0, 0, 1, 2, 4, 5, 6, 7, 8]
         client_tab = [0, 0, 2, 1]
         p_neighbour = 2
     if h['faulty']:
@@ -569,9 +589,12 @@ def gen_history(cs, templates, tier, force=None):
             if theme == 'cache' and fixed_params and cs.choose(4, 'psame') != 0:
                 # the same params dict again (on top of a base file that may have been rewritten in between)
                 op['params'] = dict(fixed_params[0])
+            elif theme == 'sweep' and sweep_params and cs.choose(4, 'prepeat') == 0:
+                op['params'] = dict(sweep_params[cs.choose(len(sweep_params), 'prepeat_which')])
             else:
                 tw = HW.GEO_TWEAKS[cs.choose(len(HW.GEO_TWEAKS), 'ptweak')]
                 op['params'] = {tw[0]: tw[1][cs.choose(len(tw[1]), 'ptweakv')]}
+                sweep_params.append(dict(op['params']))
                 if cs.choose(6, 'pbad') == 5:
                     op['params'] = {'Utilization Factor': '7'}
                 elif not fixed_params:
@@ -580,6 +603,7 @@ def gen_history(cs, templates, tier, force=None):
         nruns += 1
 
     fixed_params = []
+    sweep_params = []
     for i in range(nops):
         kind = kinds[cs.choose(len(kinds), 'op')]
         if kind == 'run' or (i == nops - 1 and nruns == 0):
@@ -652,6 +676,11 @@ def gen_history(cs, templates, tier, force=None):
                 sl = sorted(slots)[cs.choose(len(slots), 'fslot')]
                 entry = 'hip' if slots[sl]['kind'] == 'hip' else ['client', 'cli', 'client_params', 'main_argv'][cs.choose(4, 'fentry')]
                 mk_run(entry, sl)
+                if cs.choose(2, 'fretry') == 1:
+                    # ... and the caller tries the very same request again (same client, same file, same output): the obstacle was
+                    # transient, the second attempt is an ordinary request
+                    ops.append(dict(ops[-1]))
+                    nruns += 1
     h['ops'] = ops
     return h
 
@@ -682,6 +711,10 @@ def _fault_hook(k):
             code = errno.ENOSPC if f.kind == 'enospc' else errno.EIO
             exc = OSError(code, os.strerror(code))
         elif f.kind == 'eacces' and kind == 'open-w':
+            exc = PermissionError(errno.EACCES, 'Permission denied (injected)')
+        elif f.kind == 'enospc_json' and kind in ('write', 'close') and '.json' in detail:
+            exc = OSError(errno.ENOSPC, os.strerror(errno.ENOSPC))
+        elif f.kind == 'eacces_json' and kind in ('open-w', 'rename') and '.json' in detail:
             exc = PermissionError(errno.EACCES, 'Permission denied (injected)')
         elif f.kind == 'vanish' and kind == 'open-r' and ('/in' in detail or 'req' in detail or 'geophires-input' in detail):
             exc = FileNotFoundError(errno.ENOENT, 'No such file or directory (injected)')
@@ -731,6 +764,11 @@ def run_one(payload):
                 f.write(body)
         # the same decoy data files next to every request slot (a relative data-file name inside an input is resolved against the
         # package directory by every entry point, never against the directory the input happens to live in)
+        for sp in GLOB_SIBLINGS:
+            # another, valid input under a name that the slot's name matches when it is read as a pattern
+            os.makedirs(os.path.join(sandbox, os.path.dirname(sp)), exist_ok=True)
+            with open(os.path.join(sandbox, sp), 'w') as f:
+                f.write(WL.GEO_BASE + 'Gradient 1, 48\nPrint Output to Console, 0\n')
         for sp in SLOT_PATHS:
             dd = os.path.join(sandbox, os.path.dirname(sp), 'Examples')
             os.makedirs(dd, exist_ok=True)
@@ -1306,6 +1344,26 @@ class Exec:
             # an injected I/O fault is outside the property's quantifier: what this very operation returns is not judged
             # (later operations are: a torn result must not be served to an ordinary request)
             self.probe('returned_despite_fault')
+            # ... except for this: a success status is a claim also about the JSON next to the report (C10, last clause).  When the
+            # complete report of THIS request is where it belongs, the JSON beside it carries the report's quantities - it is not
+            # what an earlier run to the same path left there, and it is not missing
+            if exp['outcome'] == 'ok' and kd == 'geo' and entry in ('cli', 'main_argv', 'client', 'client_params') and not served_from_cache:
+                rp_ = report_path if entry in ('cli', 'main_argv') else (str(result.output_file_path) if result is not None else None)
+                rep_ = None
+                try:
+                    with K._real['open'](rp_, encoding='utf-8') as f:
+                        rep_ = f.read()
+                except (OSError, TypeError):
+                    pass
+                if rep_ is not None and canon_report(rep_, self.sb) == exp['report']:
+                    jp_ = json_path if entry in ('cli', 'main_argv') else json_beside(rp_)
+                    if not os.path.exists(jp_):
+                        self.V('C10', 'json_mismatch', 'no_json_beside_a_report_written_under_io_fault',
+                               f"{entry} ended with success after an injected {fault.kind} at {fault.fired[0] if fault.fired else '?'}: the complete "
+                               f"report is at {rp_.replace(self.sb, '$SB')} but there is no JSON beside it")
+                    else:
+                        self.probe('json_judged_after_a_faulted_run_that_claimed_success')
+                        self.check_json(entry, rep_, jp_, exp, kd, eff)
         elif outcome == 'ok' and exp['outcome'] == 'ok':
             self.nreports += 1
             if parsed is not None and parsed != exp['parsed']:
@@ -1471,6 +1529,29 @@ class Exec:
                     kc.atomic -= 1
         if first is not None:
             self.prev_parse = (report, first)
+        if first is not None and '\r' not in report:
+            # the same report as another platform writes it (CR LF line ends): the same fields, the same tables, the same export
+            pc = os.path.join(self.sb, 'tmp', 'parse_crlf.out')
+            with K._real['open'](pc, 'w', encoding='utf-8', newline='') as f:
+                f.write(report.replace('\n', '\r\n'))
+            kc = K.cur()
+            if kc is not None:
+                kc.atomic += 1
+            try:
+                r2 = GeophiresXResult(pc)
+                d2, c2 = canon_parsed(r2.result), r2.as_csv()
+                self.parse_stats['parses'] += 1
+                self.parse_stats['crlf_parses'] = self.parse_stats.get('crlf_parses', 0) + 1
+                if d2 != first:
+                    self.V('C10', 'parse_mismatch', 'report_with_crlf_line_ends',
+                           'the same report with CR LF line ends parses to another structure: ' + _first_diff(d2, first))
+                elif c2.replace('\r\n', '\n') != first_csv.replace('\r\n', '\n'):
+                    self.V('C10', 'csv_mismatch', 'report_with_crlf_line_ends', 'the same report with CR LF line ends exports another CSV')
+            except Exception as e:  # noqa: BLE001
+                self.V('C10', 'parse_error', 'report_with_crlf_line_ends', f'parsing the report with CR LF line ends raised {type(e).__name__}: {str(e)[:160]}')
+            finally:
+                if kc is not None:
+                    kc.atomic -= 1
         if res is not None:
             problems, st = tokenizer.check(report, res)
             for kkey in st:
